@@ -149,6 +149,24 @@ struct V1<T> {
 }
 #[derive(Deserialize, Debug)]
 #[allow(dead_code)]
+struct O1<T> {
+    t: Option<L0<T>>,
+}
+#[derive(Deserialize, Debug)]
+#[allow(dead_code)]
+struct Nt<T>(L0<T>);
+#[derive(Deserialize, Debug)]
+#[allow(dead_code)]
+struct N1<T> {
+    t: Nt<T>,
+}
+#[derive(Deserialize, Debug)]
+#[allow(dead_code)]
+struct OA<T> {
+    a: Option<Vec<Option<L0<T>>>>,
+}
+#[derive(Deserialize, Debug)]
+#[allow(dead_code)]
 enum En {
     Unit,
     New(i64),
@@ -167,6 +185,13 @@ fn layouts(lit: &str) -> Vec<(String, &'static str, Vec<&'static str>)> {
         (format!("# é\n[[a]]\nx = {}\n", lit), "A1", vec!["a", "x"]),
         (format!("a = [{{x = {}}}]\n", lit), "A1", vec!["a", "x"]),
         (format!("x = [{}]\n", lit), "V1", vec!["x"]),
+        (format!("[t]\nx = {}\n", lit), "O1", vec!["t", "x"]),
+        (format!("t = {{ x = {} }} # é\n", lit), "O1", vec!["t", "x"]),
+        (format!("t.x = {}\n", lit), "O1", vec!["t", "x"]),
+        (format!("[t]\nx = {}\n", lit), "N1", vec!["t", "x"]),
+        (format!("t = {{ x = {} }}\n", lit), "N1", vec!["t", "x"]),
+        (format!("[[a]]\nx = {}\n", lit), "OA", vec!["a", "x"]),
+        (format!("a = [ {{ x = {} }} ]\n", lit), "OA", vec!["a", "x"]),
     ]
 }
 
@@ -278,12 +303,15 @@ fn typed(rep: &mut Report) {
             "L2" => try_targets!(L2, doc, check),
             "A1" => try_targets!(A1, doc, check),
             "V1" => try_targets!(V1, doc, check),
+            "O1" => try_targets!(O1, doc, check),
+            "N1" => try_targets!(N1, doc, check),
+            "OA" => try_targets!(OA, doc, check),
             _ => unreachable!(),
         }
     };
     let (total, mut acc) = sweep_list(&cases, &f);
     acc.evals -= total; // sweep_list counted the seed lines; the closure counted the real (document, target) pairs
-    rep.absorb("U-typed", "9 literals x 10 layouts (inline, dotted, header, nested, array of tables, multi-byte neighbours) x 9 target types, through toml::from_str and Value::try_into", total * 9, true, t0, acc);
+    rep.absorb("U-typed", "9 literals x 17 layouts (inline, dotted, header, nested, array of tables, Option<struct>, newtype, Option<Vec<Option<struct>>>, multi-byte neighbours) x 9 target types, through toml::from_str and Value::try_into", total * 9, true, t0, acc);
 }
 
 /// multi-byte seeds: every truncation and every single-character edit
